@@ -13,6 +13,7 @@ ignored), keep as many values as allowed.  It shares no code with the model and 
 """
 import itertools
 import math
+import time
 import warnings
 from fractions import Fraction as F
 
@@ -347,13 +348,15 @@ PYTH = [[3, 4, 12, 84], [5, 12, 84], [8, 15, 144], [3, 4], [6, 8, 24], [1, 1, 1,
 
 def gen_spectrum(rng):
     n = rng.choice([1, 1, 2, 2, 3, 3, 4, 4, 5, 5, 6, 6, 7, 8, 9, 10, 11, 12])
-    mode = rng.choice(['dyadic', 'dyadic', 'dyadic', 'rational', 'mixed', 'geometric', 'pyth'])
+    mode = rng.choice(['dyadic', 'dyadic', 'dyadic', 'rational', 'mixed', 'geometric', 'pyth', 'small'])
     if mode == 'dyadic':
         vals = [rng.choice(DY) for _ in range(n)]
     elif mode == 'rational':
         vals = [rng.choice(RAT) for _ in range(n)]
     elif mode == 'mixed':
         vals = [rng.choice(DY + RAT) for _ in range(n)]
+    elif mode == 'small':  # around the default thresholds 1e-14 (svd_min, trunc_cut) and the 1e-10 warning
+        vals = [rng.choice([1.0, 0.5, 0.5, 1e-7, 1e-9, 1e-11, 1e-13, 3e-14, 1e-14, 5e-15, 1e-15, 1e-16]) for _ in range(n)]
     elif mode == 'geometric':
         base = rng.choice([0.5, 0.25, 0.75, 1 / 3, 0.1])
         vals = [base ** k for k in range(n)]
@@ -368,7 +371,9 @@ def gen_spectrum(rng):
     if rng.random() < 0.25:  # zeros
         for _ in range(rng.randint(1, max(1, n // 3))):
             vals[rng.randrange(n)] = 0.0
-    if rng.random() < 0.3:
+    if mode == 'small':
+        pass
+    elif rng.random() < 0.3:
         s = rng.choice([2.0, 4.0, 0.5, 0.125, 3.0, 10.0, 1e-3, 7.0])
         vals = [x * s for x in vals]
     elif rng.random() < 0.3 and any(vals):
@@ -484,6 +489,9 @@ def gen_opts(rng, S):
 def gen_case(rng):
     S, mode = gen_spectrum(rng)
     opts, extra = gen_opts(rng, S)
+    if mode == 'small' and rng.random() < 0.6:  # defaults of svd_min / trunc_cut
+        for k in rng.choice([['svd_min'], ['trunc_cut'], ['svd_min', 'trunc_cut']]):
+            opts.pop(k, None)
     case = {'part': 'truncate', 'S': S, 'opts': opts}
     case.update(extra)
     return case
@@ -699,13 +707,24 @@ def _chunk(args):
     return run_cases(ctx, gen_cases(rng, n), use_model=use_model)
 
 
+def n_chunks(default):
+    """thorough-tier volume; VERIF_C15_CHUNKS shrinks it (smoke runs on a loaded machine)"""
+    import os
+    return int(os.environ.get('VERIF_C15_CHUNKS', default))
+
+
 def run_parallel(ctx, tag, n_chunks, chunk, use_model=True):
     import multiprocessing as mp
     res = core.Result()
     jobs = [(ctx.prop, ctx.tier, ctx.seed, f'{tag}:{i}', chunk, use_model) for i in range(n_chunks)]
+    deadline = ctx.t0 + 0.6 * ctx.budget_s if ctx.budget_s else None
     with mp.get_context('fork').Pool(min(16, mp.cpu_count() or 1)) as pool:
         for r in pool.imap(_chunk, jobs):
             res.merge(r)
+            if deadline and time.time() > deadline:  # loaded machine: report what was covered, never a verdict
+                res.count('trunc.stopped-at-budget')
+                pool.terminate()
+                break
     return res
 
 
@@ -714,7 +733,7 @@ def run(ctx):
     if ctx.quick:
         res.merge(run_cases(ctx, gen_cases(ctx.sub_rng('truncate'), 30000)))
     else:
-        res.merge(run_parallel(ctx, 'truncate', 40, 25000))
+        res.merge(run_parallel(ctx, 'truncate', n_chunks(40), 25000))
     return res
 
 
@@ -723,5 +742,5 @@ def search(ctx):
     if ctx.quick:
         res.merge(run_cases(ctx, gen_cases(ctx.sub_rng('truncate-search'), 30000), use_model=False))
     else:
-        res.merge(run_parallel(ctx, 'truncate-search', 32, 25000, use_model=False))
+        res.merge(run_parallel(ctx, 'truncate-search', n_chunks(32), 25000, use_model=False))
     return res
